@@ -26,7 +26,7 @@ CHECKS = {
     "C18": {
         "engine": "dbcache-sim",
         "level": "fault_enumeration",
-        "text": "Deterministic simulation of 1..16 real forked SPSDK processes doing first-use of the database on one cache folder (a quarter of the runs with processes that also import SPSDK themselves under the interposer, some with the cache folder absent; one family with restricted-data and add-ons folders): a seeded scheduler in the parent parks every process at every cache-folder system call (open/stat/remove/rename/flock/sleep), decides who runs next (seeded, bursty and lockstep schedules; processes descheduled for 60-1000 ms at chosen seams, by index or by kind - right before remove / open-for-write / commit), kills processes at chosen yield points, tears cache writes at chosen byte lengths, leaves a lock holder unscheduled beyond the 10 s lock time-out, and edits or deletes data files between runs (size-changing and size-preserving edits); prefix sweeps enumerate truncation lengths of both cache files (quick: every byte length of the quick-info cache; thorough: every byte length of both tiny-profile files). Oracles: never fatal (incl. a liveness bound in simulated time), answers equal to a no-cache reference process, cache healed within two clean starts. Sampling, not proof: crash points are enumerated, interleavings are sampled.",
+        "text": "Deterministic simulation of 1..16 real forked SPSDK processes doing first-use of the database on one cache folder (a quarter of the runs with processes that also import SPSDK themselves under the interposer, some with the cache folder absent; one family with restricted-data and add-ons folders): a seeded scheduler in the parent parks every process at every cache-folder system call (open/stat/remove/rename/flock/sleep), decides who runs next (seeded, bursty and lockstep schedules; processes descheduled for 60-1000 ms at chosen seams, by index or by kind - right before remove / open-for-write / commit), kills processes at chosen yield points, tears cache writes at chosen byte lengths, leaves a lock holder unscheduled beyond the 10 s lock time-out, and edits or deletes data files between runs (size-changing and size-preserving edits); the tearsweep family kills the real writer at enumerated bytes of its rewrite of an outdated cache; prefix sweeps enumerate truncation lengths of both cache files (quick: every byte length of the quick-info cache; thorough: every byte length of both tiny-profile files). Oracles: never fatal (incl. a liveness bound in simulated time), answers equal to a no-cache reference process, cache healed within two clean starts. Sampling, not proof: crash points are enumerated, interleavings are sampled.",
         "note": "Trusted: the scheduler/interposer in /verif/c18, pre-emption only at cache-folder system calls, the reference process of the same tree (only cache-induced differences are flagged), kernel flock semantics. Disk-full and bit rot are out of scope.",
         "technique": "deterministic simulation with fault injection: seeded schedule search over real forked processes parked at file-system seams, kill/torn-write/prefix enumeration, history oracles against a no-cache reference",
         "design_ref": "4.1",
@@ -37,7 +37,7 @@ CHECKS["C10"] = {
     "engine": "bootlink-sim",
     "level": "fault_enumeration",
     "text": "Co-simulation of the real host stack (McuBoot + serial/bulk protocol classes + SerialDevice/UsbDevice) against a reference bootloader device model behind the third-party driver seam (pyserial Serial, libusbsio HID) with a simulated clock: seeded histories of 1..12 API calls with boundary-straddling lengths, seeded multi-fault plans (bit flip, dropped byte, truncated/missing/late response, NAK, ABORT, device error status, aborted data phase; HID missing/abort/short report) and position sweeps that inject every listed fault kind at every device-to-host stream position of short histories. Oracles compare the device-side history with the caller-visible result: exact in the fault-free configuration, 'failure or documented exception, never a wrong success, bounded simulated time' under faults.",
-    "note": "Trusted: the device model in /verif/c10 (written from the protocol definition, validated by the fault-free control configuration), the simulated drivers, the clock seam. CRC-consistent corruption and fault kinds the statement does not name are observed, never judged. A device error status that ends a command cleanly does not close the history: the following calls are judged as fault-free calls. SDP/SDPS run against their own ROM model (sdp_control / sdp_faulty / sdps families; SDPS ROM parameters are read from the database files independently of SPSDK). A third of the faulty sessions go on after a link fault without a reopen: later calls are judged for wrong success. One genuine finding is recorded, not repaired: over USB-HID reports left over from a failed exchange answer later calls (known_findings.json). Every run executes in a forked copy of the worker.",
+    "note": "Trusted: the device model in /verif/c10 (written from the protocol definition, validated by the fault-free control configuration), the simulated drivers, the clock seam. CRC-consistent corruption and fault kinds the statement does not name are observed, never judged. A device error status that ends a command cleanly does not close the history: the following calls are judged as fault-free calls. SDP/SDPS run against their own ROM model (sdp_control / sdp_faulty / sdps families; SDPS ROM parameters are read from the database files independently of SPSDK). Aimed families place what sampling may miss: the device refuses exactly the last data packet of a data phase (lastpkt), a call is answered with an error status and others follow (refused), property listings are interleaved with decodes for other families (props). A third of the faulty sessions go on after a link fault without a reopen: later calls are judged for wrong success. One genuine finding is recorded, not repaired: over USB-HID reports left over from a failed exchange answer later calls (known_findings.json). Every run executes in a forked copy of the worker.",
     "technique": "deterministic simulation with fault injection: seeded API histories against a reference device model over a simulated link, fault-position sweeps, history oracles",
     "design_ref": "4.2",
 }
@@ -45,7 +45,7 @@ CHECKS["C10"] = {
 CHECKS["C17"] = {
     "engine": "entropy-history-sim",
     "level": "exploration",
-    "text": "Seeded histories of artifact constructions (SB2.0/2.1 default, partly explicit and explicit parameters; encrypted MBI through the generated class and through load_from_config; OTFAD, IEE, BEE key blobs; HAB DEK and nonce in a durable workspace, also through the complete nxpimage hab export route (HabContainer.load_from_config on a committed example); the legacy BootImgRT class; BEE / IEE through load_from_config incl. empty keys and reused dictionaries; a BD keywrap statement; one MBI object loaded twice; SB2.1 through the BD-file configuration path; helper objects and parsed configurations shared between builds; os.fork workers inside a lifetime) across 1..3 simulated interpreter lifetimes (forked children that import spsdk afresh in a plan-chosen module order). OS entropy is replaced by an injective counter device and the wall clock by a simulated one that the plan repeats or steps back across restarts, so two equal secrets can only come from reuse in the code (default argument, class-level value, value derived from the clock). Oracle: all self-chosen slots of a history are pairwise distinct and no (key, nonce) pair repeats. Sampling of histories, not proof.",
+    "text": "Seeded histories of artifact constructions (SB2.0/2.1 default, partly explicit and explicit parameters; encrypted MBI through the generated class and through load_from_config; OTFAD, IEE, BEE key blobs; HAB DEK and nonce in a durable workspace, also through the complete nxpimage hab export route (HabContainer.load_from_config on a committed example); the legacy BootImgRT class; BEE / IEE through load_from_config incl. empty keys and reused dictionaries; a BD keywrap statement; one MBI object loaded twice; SB2.1 through the BD-file configuration path; helper objects and parsed configurations shared between builds; os.fork workers inside a lifetime) across 1..3 simulated interpreter lifetimes (forked children that import spsdk afresh in a plan-chosen module order). Two builds of one HAB project may be interleaved in one folder (second build runs right after the first closed its key file); the global PRNG is seeded per lifetime from the entropy device and, in 30 % of the histories, by the application with a constant. OS entropy is replaced by an injective counter device and the wall clock by a simulated one that the plan repeats or steps back across restarts, so two equal secrets can only come from reuse in the code (default argument, class-level value, value derived from the clock). Oracle: all self-chosen slots of a history are pairwise distinct and no (key, nonce) pair repeats. Sampling of histories, not proof.",
     "note": "Trusted: the entropy/clock seams at the stdlib boundary (secrets, os.urandom, time, datetime), fork + fresh import as the model of a restart, the slot readers in /verif/c17/epoch.py. OpenSSL's own RNG is not observed.",
     "technique": "deterministic simulation with fault injection: injective entropy device + repeatable clock across simulated restarts, seeded construction histories, pairwise-freshness oracle",
     "design_ref": "4.3",
@@ -63,7 +63,7 @@ CHECKS["C11"] = {
 CHECKS["C05"] = {
     "engine": "bootlink-sim",
     "level": "exploration",
-    "text": "Provisioning sessions and export histories on one SecureBinary31 object (built through the Python API or, for 30 % of the runs, through SecureBinary31.load_from_config with inline / YAML / binary certificate-block configurations; a third of the history runs build another container in the same process first): seeded key sets (P-256/P-384, 1..4 roots, with/without ISK incl. mixed curves and user data), PCK 128/256, access rights 0..3, encrypted/plain, header fields incl. the clock-derived default timestamp; operations add_command (14 command types, data lengths chosen to end the stream at every offset mod 256) / export / export again / flip one stored bit / deliver over the simulated UART or HID link with link faults. Every export goes through an independent ROM-loader model (RoT key hash, ISK chain, container signature, hash chain, CMAC-KDF block keys, AES-CBC, section header, command walker) that must accept it and decode exactly the supplied command list and header fields; any flipped bit must be rejected; a delivery that reports success must have made the device execute exactly that command list. The fault-free single-export runs are, candidly, generated inputs against a reference model (reported as control_runs); history_runs and faulted_runs are what the simulation adds.",
+    "text": "Provisioning sessions and export histories on one SecureBinary31 object (built through the Python API or, for 30 % of the runs, through SecureBinary31.load_from_config with inline / YAML / binary certificate-block configurations; a third of the history runs build another container in the same process first; the signing service may be unreachable for the first requests and the caller retries): seeded key sets (P-256/P-384, 1..4 roots, with/without ISK incl. mixed curves and user data), PCK 128/256, access rights 0..3, encrypted/plain, header fields incl. the clock-derived default timestamp; operations add_command (14 command types, data lengths chosen to end the stream at every offset mod 256) / export / export again / flip one stored bit / deliver over the simulated UART or HID link with link faults. Every export goes through an independent ROM-loader model (RoT key hash, ISK chain, container signature, hash chain, CMAC-KDF block keys, AES-CBC, section header, command walker) that must accept it and decode exactly the supplied command list and header fields; any flipped bit must be rejected; a delivery that reports success must have made the device execute exactly that command list. The fault-free single-export runs are, candidly, generated inputs against a reference model (reported as control_runs); history_runs and faulted_runs are what the simulation adds.",
     "note": "Trusted: the ROM-loader model c05/rom31.py (validated at start-up on reference containers under golden/sb31, incl. rejection of corrupted copies; a failure there is exit 2), the C10 link/device models, the clock seam. ECDSA signature bytes are nondeterministic and masked out of digests.",
     "technique": "deterministic simulation with fault injection: build -> storage fault -> simulated link -> independent ROM-loader model; seeded export histories, bit-flip and link-fault injection",
     "design_ref": "4.5",
